@@ -307,6 +307,30 @@ pub fn gen(seed: u64, tier: &str) -> Vec<String> {
             }
         }
     }
+    // C4. beyond 128: one side 256 / 512 / 1024 (the PICA200 maximum), the other 8 — tile counters and
+    //     dimension masks; still inside the theorems' domain (sides below 2^16), judged by the oracle
+    {
+        let fmts: Vec<u32> = if thorough { (0..=13).collect() } else { vec![0, 3, 7, 12, 13] };
+        for &fmt in &fmts {
+            for (i, (w, h)) in [(256u32, 8u32), (8, 512), (1024, 8), (8, 1024)].into_iter().enumerate() {
+                if !thorough && i == 1 {
+                    continue;
+                }
+                let len = need(fmt, w, h);
+                let p = if (i + fmt as usize) % 3 == 0 { let st = rng.next(); texc::sentinel_payload(&mut rng, fmt, len, st) } else { rng.bytes(len) };
+                g.push(format!("px {} {} {} {}", fmt, w, h, hex(&p)));
+            }
+        }
+        for alpha in [false, true] {
+            for (w, h) in [(1024u32, 8u32), (8, 1024), (2048, 8)] {
+                if !thorough && alpha != (w == 1024) {
+                    continue;
+                }
+                let len = need(if alpha { 13 } else { 12 }, w, h);
+                g.push(format!("etc {} {} {} {}", alpha as u8, w, h, hex(&rng.bytes(len))));
+            }
+        }
+    }
     // D. fully random blocks; all sizes 8…128 (the f64 tile count), rectangular included
     for &w in &all_sizes {
         for &h in &all_sizes {
